@@ -311,4 +311,76 @@ theorem flipSymmetric_iff_lookup (m : List Rat) (vs : List Nat) (I : Interaction
     rw [hx, hy]
     exact congrArg some (Res.ok.inj this)
 
+
+/-! ### offset variants -/
+
+/-- `new_diagonal_offset`: never panics; accepted exactly when the table size fits a non-empty
+variable list (whatever the signs: the minimum is subtracted first); the recorded offset is the
+minimum entry and the stored table is the input minus that minimum (so its minimum is 0). -/
+theorem newDiagonalOffset_spec (m : List Rat) (vs : List Nat) :
+    Interaction.newDiagonalOffset m vs ≠ .panic ∧
+    ((∃ r, Interaction.newDiagonalOffset m vs = .ok r) ↔ vs ≠ [] ∧ m.length = 2 ^ vs.length) ∧
+    (∀ I d, Interaction.newDiagonalOffset m vs = .ok (I, d) →
+      d ∈ m ∧ (∀ x ∈ m, d ≤ x) ∧ I.mat = m.map (· - d) ∧ (0 : Rat) ∈ I.mat ∧
+      Interaction.newDiagonal (m.map (· - d)) vs = .ok I) := by
+  rw [newDiagonalOffset_eq]
+  refine ⟨by split <;> simp, by split <;> simp_all, ?_⟩
+  intro I d h
+  split at h
+  · rename_i hc
+    have hne : m ≠ [] := by
+      intro h0; rw [h0] at hc; simp at hc
+      have := Nat.two_pow_pos vs.length; omega
+    obtain ⟨d', hd', hmem, hmin⟩ := minFold_spec m hne
+    rw [hd'] at h; simp only [Option.getD_some] at h
+    injection h with h; injection h with hI hd
+    subst hd; subst hI
+    refine ⟨hmem, hmin, rfl, ?_, ?_⟩
+    · exact List.mem_map.mpr ⟨d', hmem, by simp⟩
+    · rw [newDiagonal_eq, if_pos]
+      refine ⟨?_, hc.1, by simpa using hc.2⟩
+      intro x hx
+      obtain ⟨y, hy, rfl⟩ := List.mem_map.mp hx
+      linarith [hmin y hy]
+  · cases h
+
+/-- `new_offset`: never panics; with a fitting size it subtracts the minimal diagonal entry from
+the diagonal only, records it as the offset, and then validates like `new` (so it errors exactly
+when an off-diagonal entry is negative or the variable list is empty). -/
+theorem newOffset_spec (m : List Rat) (vs : List Nat) :
+    Interaction.newOffset m vs ≠ .panic ∧
+    (m.length ≠ 4 ^ vs.length → Interaction.newOffset m vs = .err) ∧
+    (m.length = 4 ^ vs.length →
+      ∃ d m', (d ∈ (diagIdxs vs.length).map (fun i => (m[i]?).getD 0)) ∧
+        (∀ i ∈ diagIdxs vs.length, d ≤ (m[i]?).getD 0) ∧
+        m'.length = m.length ∧
+        (∀ j, j ∉ diagIdxs vs.length → m'[j]? = m[j]?) ∧
+        (∀ j ∈ diagIdxs vs.length, m'[j]? = (m[j]?).map (· - d)) ∧
+        Interaction.newOffset m vs = (Interaction.new m' vs).map (fun i => (i, d))) := by
+  have h := Qmc.newOffset_spec m vs
+  refine ⟨?_, ?_, h.2⟩
+  · by_cases hl : m.length = 4 ^ vs.length
+    · obtain ⟨d, m', _, _, _, _, _, heq⟩ := h.2 hl
+      rw [heq]
+      have := new_never_panics m' vs
+      cases hn : Interaction.new m' vs <;> simp_all [Res.map, Res.bind]
+    · rcases h.1 hl with e | ⟨_, _, _, e⟩ <;> rw [e] <;> simp
+  · intro hl
+    rcases h.1 hl with e | ⟨_, _, _, e⟩ <;> exact e
+
+/-! ### non-vacuity: the hypotheses above are met by concrete non-trivial matrices -/
+
+example : ∃ I, Interaction.new [1, 0, 0, 1] [3] = .ok I := by
+  rw [new_accepts_iff]; refine ⟨?_, by simp, by simp⟩
+  intro x hx; simp at hx; rcases hx with h | h | h <;> rw [h] <;> norm_num
+
+example : Separated [1, 0, 0, 1] := by
+  intro x hx y hy
+  simp at hx hy
+  rcases hx with rfl | rfl | rfl <;> rcases hy with rfl | rfl | rfl <;>
+    first | (left; rfl) | (right; unfold eps absR; norm_num)
+
+example : ¬ FlipSymmetric [1, 0, 0, 0] := by
+  intro h; have := h 0 (by simp); simp at this
+
 end Qmc.C16
